@@ -172,6 +172,7 @@ def gen_config(prop, sub, run_id, n, shape):
         "policy": gen_policy(rng, steps_hint),
         "chaos_steps": rng.choice([steps_hint // 2, steps_hint, 2 * steps_hint, 5 * steps_hint, 20 * steps_hint]),
         "faults": [],
+        "pickle_at_put": rng.random() < 0.2,
     }
     cfg["max_steps"] = cfg["chaos_steps"] + 12000 + 400 * n
     if prop == "C13":
@@ -272,12 +273,16 @@ def run_chunk(job):
     st = Stats()
     d = st.d
     chunk = job["chunk"]
-    cid = "%s:%s:%s:c%d" % (job["base_seed"], prop, sub, chunk)
+    label = job.get("label") or sub
+    cid = "%s:%s:%s:c%d" % (job["base_seed"], prop, label, chunk)
     wl_seed = shash("wl", cid) % (2**31)
     rng = random.Random("chunk-%s" % cid)
     shipped = job.get("shipped_batch", False)
+    big = job.get("big", False)
     if shipped:
         wl = workload.make_workload(wl_seed, n_records=rng.choice([1000, 1003, 2000, 2007]))
+    elif big:
+        wl = workload.make_workload(wl_seed, n_records=rng.choice([130, 200, 256, 300, 401]))
     else:
         wl = workload.make_workload(wl_seed, max_records=job.get("max_records", 24))
     bgzf = rng.random() < 0.15
@@ -289,6 +294,10 @@ def run_chunk(job):
     if shipped:
         shape = (None, rng.choice([1, 2]), 16)
         nbatch = 1000
+    elif big:
+        # workers with >= 100 records each (chunked / buffered result delivery only shows there)
+        shape = (rng.choice([100, 128, 150, 200]), rng.choice([1, 2, 2, 3]), 16)
+        nbatch = shape[0]
     else:
         shape = gen_shape(rng, wl["n"])
         nbatch = shape[0]
@@ -312,7 +321,7 @@ def run_chunk(job):
                  "key": "C11/single-core-%s" % v[0], "cfg": {"seed": "ref", "batch": shape[0], "cores": 1, "cpu_count": 16, "policy": {"name": "benign"}, "max_steps": 200000, "faults": []},
                  "wl": wl, "bgzf": bgzf, "decisions": ref.decisions}
             )
-    n_runs = job["runs"] if not shipped else 2
+    n_runs = 2 if shipped else (4 if big else job["runs"])
     plans = []
     if job.get("sweep"):
         # enumeration: every worker x every kill point of its batch x every fault kind, S schedules each
@@ -330,7 +339,7 @@ def run_chunk(job):
     else:
         for j in range(n_runs):
             i = chunk * job["runs"] + j
-            run_id = "%s:%s:%s:%d" % (job["base_seed"], prop, sub, i)
+            run_id = "%s:%s:%s:%d" % (job["base_seed"], prop, label, i)
             if shipped:
                 cfg = gen_config(prop, sub, run_id, wl["n"], (1000, shape[1], 16))
                 cfg["batch"] = None
@@ -530,87 +539,111 @@ def shrink(repo, viol, budget_s=90.0, log=None):
             return True
         return False
 
-    try_cfg(lambda c: c.__setitem__("bgzf", False))
-    try_cfg(lambda c: c["cfg"].__setitem__("cpu_count", 16))
-    try_cfg(lambda c: c["cfg"].__setitem__("pipe", dict(REAL_PIPE)))
-    for nf in range(len(case["cfg"].get("faults", [])) - 1, -1, -1):
-        try_cfg(lambda c, nf=nf: c["cfg"]["faults"].pop(nf))
-    for f_i in range(len(case["cfg"].get("faults", []))):
-        try_cfg(lambda c, f_i=f_i: c["cfg"]["faults"][f_i].__setitem__("code", -9) if c["cfg"]["faults"][f_i]["kind"] == "kill" else None)
+    def simplify_cfg():
+        ch = False
+        ch |= try_cfg(lambda c: c.__setitem__("bgzf", False))
+        ch |= try_cfg(lambda c: c["cfg"].__setitem__("cpu_count", 16))
+        ch |= try_cfg(lambda c: c["cfg"].__setitem__("pipe", dict(REAL_PIPE)))
+        ch |= try_cfg(lambda c: c["cfg"].__setitem__("pickle_at_put", False))
+        for nf in range(len(case["cfg"].get("faults", [])) - 1, -1, -1):
+            ch |= try_cfg(lambda c, nf=nf: c["cfg"]["faults"].pop(nf) if len(c["cfg"]["faults"]) > nf else None)
+        for f_i in range(len(case["cfg"].get("faults", []))):
+            ch |= try_cfg(lambda c, f_i=f_i: c["cfg"]["faults"][f_i].__setitem__("code", -9) if c["cfg"]["faults"][f_i]["kind"] == "kill" else None)
+        for b in (1, 2, 3):
+            if case["cfg"].get("batch") and b < case["cfg"]["batch"]:
+                if try_cfg(lambda c, b=b: c["cfg"].__setitem__("batch", b)):
+                    ch = True
+                    break
+        for cores in (1, 2, 3):
+            if cores < case["cfg"]["cores"]:
+                if try_cfg(lambda c, cores=cores: c["cfg"].__setitem__("cores", cores)):
+                    ch = True
+                    break
+        return ch
 
-    # 2. workload: drop records (ddmin over the record index set), then lower cores
-    keep = list(range(case["wl"]["n"]))
-    full_wl = case["wl"]
-    full_cfg = case["cfg"]
-    full_dec = None
-    n = 2
-    while len(keep) >= 1 and not over():
-        size = max(1, len(keep) // n)
-        removed = False
-        if full_dec is None:
-            full_dec = list(dec)
-        for s in range(0, len(keep), size):
-            cand = keep[:s] + keep[s + size:]
-            if len(cand) == len(keep):
-                continue
-            c = dict(case)
-            c["wl"] = workload.drop_records(full_wl, cand)
-            rm = remap(full_cfg, full_dec, full_wl["n"], cand)
-            if rm is None:
-                continue
-            c["cfg"], dec_c = rm
-            r = test(c, dec_c)
-            if r is None:
-                r = test(c, dec)
-            if r is not None:
-                keep = cand
-                case = c
-                dec = list(r.decisions)
-                removed = True
-                n = max(2, n - 1)
-                break
-            if over():
-                break
-        if not removed:
-            if size == 1:
-                break
-            n = min(len(keep), n * 2)
-    for cores in (1, 2, 3):
-        if cores < case["cfg"]["cores"]:
-            if try_cfg(lambda c, cores=cores: c["cfg"].__setitem__("cores", cores)):
-                break
-    for b in (1, 2, 3):
-        if case["cfg"].get("batch") and b < case["cfg"]["batch"]:
-            if try_cfg(lambda c, b=b: c["cfg"].__setitem__("batch", b)):
-                break
+    def drop_records_ddmin():
+        nonlocal case, dec
+        changed = False
+        keep = list(range(case["wl"]["n"]))
+        full_wl = case["wl"]
+        full_cfg = case["cfg"]
+        full_dec = list(dec)
+        n = 2
+        while len(keep) >= 1 and not over():
+            size = max(1, len(keep) // n)
+            removed = False
+            for s in range(0, len(keep), size):
+                cand = keep[:s] + keep[s + size:]
+                if len(cand) == len(keep):
+                    continue
+                c = dict(case)
+                c["wl"] = workload.drop_records(full_wl, cand)
+                rm = remap(full_cfg, full_dec, full_wl["n"], cand)
+                if rm is None:
+                    continue
+                c["cfg"], dec_c = rm
+                r = test(c, dec_c)
+                if r is not None:
+                    keep = cand
+                    case = c
+                    dec = list(r.decisions)
+                    removed = True
+                    changed = True
+                    n = max(2, n - 1)
+                    break
+                if over():
+                    break
+            if not removed:
+                if size == 1:
+                    break
+                n = min(len(keep), n * 2)
+        return changed
 
-    # 3. decision list: shortest prefix after which the benign default suffices, then ddmin
-    lo, hi = 0, len(dec)
-    while lo < hi and not over():
-        mid = (lo + hi) // 2
-        if test(case, dec[:mid]) is not None:
-            hi = mid
-        else:
-            lo = mid + 1
-    if test(case, dec[:hi]) is not None:
-        dec = dec[:hi]
-    n = 2
-    while len(dec) >= 2 and not over():
-        size = max(1, len(dec) // n)
-        removed = False
-        for s in range(0, len(dec), size):
-            cand = dec[:s] + dec[s + size:]
-            if test(case, cand) is not None:
-                dec = cand
-                removed = True
-                n = max(2, n - 1)
-                break
-            if over():
-                break
-        if not removed:
-            if size == 1:
-                break
-            n = min(len(dec), n * 2)
+    def shrink_decisions():
+        nonlocal dec
+        lo, hi = 0, len(dec)
+        while lo < hi and not over():
+            mid = (lo + hi) // 2
+            if test(case, dec[:mid]) is not None:
+                hi = mid
+            else:
+                lo = mid + 1
+        if hi < len(dec) and test(case, dec[:hi]) is not None:
+            dec = dec[:hi]
+        n = 2
+        while len(dec) >= 2 and not over():
+            size = max(1, len(dec) // n)
+            removed = False
+            for s in range(0, len(dec), size):
+                cand = dec[:s] + dec[s + size:]
+                if test(case, cand) is not None:
+                    dec = cand
+                    removed = True
+                    n = max(2, n - 1)
+                    break
+                if over():
+                    break
+            if not removed:
+                if size == 1:
+                    break
+                n = min(len(dec), n * 2)
+
+    for _round in range(4):
+        ch = simplify_cfg()
+        ch |= drop_records_ddmin()
+        if not ch or over():
+            break
+    shrink_decisions()
+    if not over():
+        # with few forced decisions left, records and workers that no longer matter can go
+        r_full = test(case, dec)
+        if r_full is not None:
+            forced = dec
+            dec = list(r_full.decisions)
+            if simplify_cfg() | drop_records_ddmin():
+                shrink_decisions()
+            else:
+                dec = forced
 
     # 4. re-record an exact, complete decision list
     r = test(case, dec)
